@@ -346,7 +346,10 @@ def close_family_scenarios():
     one = [{"site": site, "fault": fault, "steps": steps} for site in SITES + ["relay-tcp"] for fault in ("none", "close-error") for steps in shapes]
     # several candidates of a kind (two server URLs / two interfaces): one candidate's failing Close must not end the teardown of the others
     two = [dict(s, two=True) for s in one if s["site"] in ("relay", "relay-tcp", "host-udp", "srflx-own")]
-    return one + two
+    # candidates of different kinds in one agent: a host candidate (whose socket fails to close) ahead of a relay candidate, which owns
+    # a TURN client and a control socket behind its own connection
+    mixed = [dict(s, hostToo=True) for s in one if s["site"] in ("relay", "relay-tcp")]
+    return one + two + mixed
 
 
 def regression_scenarios(copies=16):
